@@ -28,9 +28,13 @@ def s_own(v):
     and sub/Manifest with DIST, IGNORE, EBUILD c (symbolic file), AUX files/x"""
     c = Ctx()
     fs = c.fs = ModelFS(written_sizes=[v.size('w1'), v.size('w2')])
+    mode = v.choice('mode', 4)
     (a_size, a_dig) = v.filetoken('a_size', 'a_dig')
     (m_size, m_dig) = v.filetoken('m_size', 'm_dig')
     (c_size, c_dig) = v.filetoken('c_size', 'c_dig')
+    if mode == 3:
+        # the symbolic variable of this mode is the fault position: attributes concrete
+        a_size, a_dig, m_size, m_dig, c_size, c_dig = 2, 'A', 5, 'Q', 4, 'C'
     ck = v.choice('c_kind', 3)          # absent, file, directory (-> failing update)
     fs.add_file('a', size=a_size, digest=a_dig)
     fs.add_file('oth/m', size=m_size, digest=m_dig)
@@ -58,7 +62,10 @@ def s_own(v):
            mk('DATA', 'subx/k', 1, MD5=md5('k')), mk('DATA', 'sub.conf', 1, MD5=md5('j')),
            mk('MANIFEST', 'sub/Manifest', 6, MD5=md5('S'))]
     fs.add_manifest('Manifest', top)
-    c.mode = v.choice('mode', 3)        # 0 verify+lookups, 1 update w/o save, 2 update+save
+    c.mode = mode                       # 0 verify+lookups, 1 update w/o save, 2 update+save,
+    #                                     3 update hit by an I/O error, then discarded
+    c.fault_at = v.int('fault_at', 0, 70)
+    c.xdev = v.bool('sub_other_dev')
     c.upath = ('', 'sub')[v.choice('up', 2)]
     c.force = v.bool('force')
     return c
@@ -86,10 +93,15 @@ def run_ops(c):
     c.before = snapshot(c.fs)
     c.log_before_save = None
     out = 'done'
+    if c.mode == 3 and c.xdev:
+        c.fs.node('sub').dev = 2            # one-file-system update crossing a boundary
     with fs.installed():
         try:
             m = ManifestRecursiveLoader(posixpath.join(fs.root_path, 'Manifest'),
-                                        verify_openpgp=False, hashes=['MD5'])
+                                        verify_openpgp=False, hashes=['MD5'],
+                                        allow_xdev=not (c.mode == 3 and c.xdev))
+            if c.mode == 3 and not c.xdev:
+                c.fs.fault_at = c.fs.ncalls + c.fault_at
             if c.mode == 0:
                 try:
                     m.assert_directory_verifies(c.upath)
@@ -105,12 +117,14 @@ def run_ops(c):
                 m.find_timestamp()
             else:
                 m.update_entries_for_directory(c.upath)
+                c.fs.fault_at = None
                 c.log_before_save = [*c.fs.log]
                 if c.mode == 2:
                     m.save_manifests(force=c.force)
                     out = 'saved'
-        except GematoException as e:
+        except (GematoException, OSError) as e:
             out = 'error:' + type(e).__name__
+            c.fs.fault_at = None
             if c.log_before_save is None:
                 c.log_before_save = [*c.fs.log]
     return out
@@ -202,7 +216,7 @@ def judge_ops(c, out):
 
 def conditions(tier):
     cs = []
-    parts = [('mode', range(3)), ('up', range(2)), ('c_kind', range(3)),
+    parts = [('mode', range(4)), ('up', range(2)), ('c_kind', range(3)),
              ('force', (False, True))]
     for fx in partitions(parts):
         if fx['mode'] != 2 and fx['force']:
@@ -212,8 +226,9 @@ def conditions(tier):
             nm, s_own, run_ops, judge_ops, fx, timeout=400, group='M-own', real=False,
             twin=(fx['mode'] == 2 and fx['c_kind'] == 1),
             descr='sequence of loader operations on the model with a write log: (0) verify '
-                  '+ lookups, (1) update without save, (2) update + save; sub/c absent, a '
-                  'file, or a directory (failing update)',
+                  '+ lookups, (1) update without save, (2) update + save, (3) update hit by an '
+                  'OSError at a symbolic call position or by a device boundary, then '
+                  'discarded; sub/c absent, a file, or a directory (failing update)',
             bounds='S-own: top Manifest with TIMESTAMP/DIST/IGNORE/DATA/MISC/EBUILD/MANIFEST '
                    'entries, sub/Manifest with DIST/IGNORE/EBUILD/AUX; files a, oth/m, sub/c '
                    'with symbolic size/digest (stale or not); optional new file; update of '
